@@ -359,7 +359,7 @@ impl Driver for C13 {
         }
     }
     fn rule(&self) -> String {
-        "continuous G-lp models (<=5 variables, <=5 rows, every interleaving of free / non-negative / bounded / half-bounded variables, <=, >=, = rows with right-hand sides of either sign incl. -1e-6, zero coefficients on free variables, min and max) converted by into_standard_form(); read through the guarded accessors; exact checks: rhs >= 0; certified verdict and optimum of model and standard form coincide; vertices and ray points of the standard form under 4 objectives map back (x = $p-$m) to feasible points with equal objective; vertices/ray points of the model under 4 objectives, with both halves of every split shifted by 0 and 3/2, map to feasible standard-form points with equal objective; infeasible points get no feasible image. non-trivial = has a Real variable (split) and at least one row".into()
+        "continuous G-lp models (<=5 variables, <=5 rows, every interleaving of free / non-negative / bounded / half-bounded variables, <=, >=, = rows with right-hand sides of either sign incl. -1e-6, zero coefficients on free variables, min and max) converted by into_standard_form(); read through the guarded accessors; exact checks: rhs >= 0; certified verdict and optimum of model and standard form coincide; vertices and ray points of the standard form under 4 objectives map back (x = $p-$m) to feasible points with equal objective; vertices/ray points of the model under 4 objectives, with both halves of every split shifted by 0 and 3/2, map to feasible standard-form points with equal objective; infeasible points get no feasible image. non-trivial = has a Real variable (split) and at least one row One model in ten carries declared bounds of a few millionths (5e-6, 2e-6, 8e-7).".into()
     }
     fn thresholds(&self, tier: Tier) -> Thresholds {
         let s = tier.pick(10, 150);
